@@ -7,7 +7,8 @@
    The Config layer itself (QPDFJob_config.cc) is shared by the front ends and is NOT modelled here: the correspondence replays the
    model's cfg_call sequence through the real QPDFJob::Config API and compares the resulting configuration with what the real front
    end built. Defects included (null c_pages when "pages" is a single object, page labels dropped when "setPageLabels" is a single
-   string, user/owner password remembered across two --encrypt). No proofs in this file. *)
+   string, user/owner password remembered across two --encrypt, the Config usage error of a second page range
+   swallowed when the word also names a file). No proofs in this file. *)
 From Coq Require Import String.
 From Coq Require Import List NArith ZArith Bool.
 From QV Require Import Base.Bytes Sys.JobTypes Gen.JobTables Struct.NumRange.
@@ -19,7 +20,8 @@ Open Scope N_scope.
 (* how a front end ends. front-end usage errors by kind (the text is the implementation's business, the kind is compared):
    1 unrecognized argument            2 parameter required / not one of the choices     3 bare option given a parameter
    4 missing -- at end of a table     5 positional and dashed encryption arguments mixed 6 key length not 40/128/256
-   7 unknown (third) positional       8 invalid page range in --pages
+   7 unknown (third) positional       8 invalid page range in --pages     9 --pages: a second page range for the same file (the
+     rejected Config call is the last call reported)
    20 JSON: bare key with non-empty value   21 JSON: value not one of the choices   22 JSON: value not of expected type / unexpected key
    23 JSON encrypt: two key lengths   24 JSON encrypt: no key length    25 JSON encrypt: password missing
    26 JSON pages: file required       27 JSON under/overlay: file required *)
@@ -36,28 +38,43 @@ Record astate := mk_astate {
   a_user : bstr; a_owner : bstr;
   a_pages_file : bool;             (* called_pages_file *)
   a_pages_range : bool;            (* called_pages_range *)
+  a_range_set : bool;              (* Config state the --pages handler depends on: inputs.selections.back().range is not empty *)
   a_used_enc_pw : bool;            (* used_enc_password_args *)
   a_gave_input : bool; a_gave_output : bool;
   a_calls : list cfg_call              (* reversed *)
 }.
 
-Definition a_init : astate := mk_astate B"main" [] [] [] false false false false false [].
+Definition a_init : astate := mk_astate B"main" [] [] [] false false false false false false [].
+
+(* QPDFJob::PagesConfig::file appends a selection with an empty range; ::range fills the last selection's range (and raises a usage
+   error when it is not empty). Tracked because ArgParser::argPagesPositional calls range() inside the try block whose handler
+   re-reads the word as a file name. *)
+Definition range_set_after (c : cfg_call) (b : bool) : bool :=
+  match c with
+  | CCall obj meth args =>
+      if bstr_eqb obj B"c_pages" && bstr_eqb meth B"file" then false
+      else if bstr_eqb obj B"c_pages" && bstr_eqb meth B"range" then
+        b || match args with (_ :: _) :: _ => true | _ => false end
+      else b
+  end.
 
 Definition a_emit (c : cfg_call) (s : astate) : astate :=
-  mk_astate (a_table s) (a_acc s) (a_user s) (a_owner s) (a_pages_file s) (a_pages_range s) (a_used_enc_pw s)
+  mk_astate (a_table s) (a_acc s) (a_user s) (a_owner s) (a_pages_file s) (a_pages_range s) (range_set_after c (a_range_set s)) (a_used_enc_pw s)
             (a_gave_input s) (a_gave_output s) (c :: a_calls s).
 Definition a_set_table (t : bstr) (s : astate) : astate :=
-  mk_astate t (a_acc s) (a_user s) (a_owner s) (a_pages_file s) (a_pages_range s) (a_used_enc_pw s)
+  mk_astate t (a_acc s) (a_user s) (a_owner s) (a_pages_file s) (a_pages_range s) (a_range_set s) (a_used_enc_pw s)
             (a_gave_input s) (a_gave_output s) (a_calls s).
 Definition a_set_acc (l : list bstr) (s : astate) : astate :=
-  mk_astate (a_table s) l (a_user s) (a_owner s) (a_pages_file s) (a_pages_range s) (a_used_enc_pw s)
+  mk_astate (a_table s) l (a_user s) (a_owner s) (a_pages_file s) (a_pages_range s) (a_range_set s) (a_used_enc_pw s)
             (a_gave_input s) (a_gave_output s) (a_calls s).
 Definition a_set_pw (u o : bstr) (used : bool) (s : astate) : astate :=
-  mk_astate (a_table s) (a_acc s) u o (a_pages_file s) (a_pages_range s) used (a_gave_input s) (a_gave_output s) (a_calls s).
+  mk_astate (a_table s) (a_acc s) u o (a_pages_file s) (a_pages_range s) (a_range_set s) used (a_gave_input s) (a_gave_output s) (a_calls s).
 Definition a_set_pages (f r : bool) (s : astate) : astate :=
-  mk_astate (a_table s) (a_acc s) (a_user s) (a_owner s) f r (a_used_enc_pw s) (a_gave_input s) (a_gave_output s) (a_calls s).
+  mk_astate (a_table s) (a_acc s) (a_user s) (a_owner s) f r (a_range_set s) (a_used_enc_pw s) (a_gave_input s) (a_gave_output s) (a_calls s).
 Definition a_set_gave (i o : bool) (s : astate) : astate :=
-  mk_astate (a_table s) (a_acc s) (a_user s) (a_owner s) (a_pages_file s) (a_pages_range s) (a_used_enc_pw s) i o (a_calls s).
+  mk_astate (a_table s) (a_acc s) (a_user s) (a_owner s) (a_pages_file s) (a_pages_range s) (a_range_set s) (a_used_enc_pw s) i o (a_calls s).
+
+Definition is_nil {A} (l : list A) : bool := match l with [] => true | _ => false end.
 
 Inductive astep := AOk (s : astate) | AErr (s : astate) (kind : N).
 
@@ -112,8 +129,12 @@ Definition a_manual (files : list bstr) (h : bstr) (arg : bstr) (s : astate) : a
   else if bstr_eqb h B"argPagesPositional" then
     if negb (a_pages_file s) then AOk (a_set_pages true (a_pages_range s) (a_emit (CCall C_PAGES B"file" [arg]) s))
     else if a_pages_range s then AOk (a_set_pages true false (a_emit (CCall C_PAGES B"file" [arg]) s))
-    else if numrange_ok arg then AOk (a_set_pages true true (a_emit (CCall C_PAGES B"range" [arg]) s))
+    else if numrange_ok arg && negb (a_range_set s) then
+      AOk (a_set_pages true true (a_emit (CCall C_PAGES B"range" [arg]) s))
+    (* not a page range, or c_pages->range(arg) raised "--range already specified for this file" inside the same try block: the
+       handler of that block re-reads the word as a file name, and re-raises the message when it is not one *)
     else if bstr_eqb arg B"." || bmem arg files then AOk (a_set_pages true false (a_emit (CCall C_PAGES B"file" [arg]) s))
+    else if numrange_ok arg then AErr (a_emit (CCall C_PAGES B"range" [arg]) s) 9
     else AErr s 8
   else if bstr_eqb h B"argEndPages" then AOk (a_emit (CCall C_PAGES B"endPages" []) s)
   else if bstr_eqb h B"argUnderlay" then AOk (a_set_table B"underlay/overlay" (a_emit (CCall C_MAIN B"underlay" []) s))
@@ -171,7 +192,6 @@ Definition strip_dashes (arg : bstr) : option bstr :=
   | _ => None
   end.
 Definition starts_with_dash (f : bstr) : bool := match f with c :: _ => c =? 45 | [] => false end.
-Definition is_nil {A} (l : list A) : bool := match l with [] => true | _ => false end.
 
 Definition is_help_only (flag : bstr) : bool :=
   bstr_eqb flag B"help" || bstr_eqb flag B"completion-bash" || bstr_eqb flag B"completion-zsh".
